@@ -597,6 +597,52 @@ func c14Batch(c *sim.RunCtx) {
 				total += int64(len(objs[x].Data))
 				req.Digests = append(req.Digests, objs[x].D.GetProto())
 			}
+			// a quarter of the requests carry one malformed digest at a drawn
+			// position: the server may refuse the whole request or report it
+			// per entry, but whatever it answers with status OK must be the
+			// object that the answer's own digest names, and every well-formed
+			// digest must be answered
+			if t.Chance(1, 4) {
+				bad := []*remoteexecution.Digest{
+					{Hash: objs[0].D.GetProto().Hash, SizeBytes: -1},
+					{Hash: "abc", SizeBytes: 3},
+					{Hash: strings.Repeat("g", 64), SizeBytes: 1},
+				}[t.Choose(3)]
+				pos := t.Choose(len(req.Digests) + 1)
+				req.Digests = append(req.Digests[:pos:pos], append([]*remoteexecution.Digest{bad}, req.Digests[pos:]...)...)
+				c.Count("fault_batch_read_malformed_digest", 1)
+				resp, err := cas.BatchReadBlobs(ctx, req)
+				if err != nil {
+					if status.Code(err) != codes.InvalidArgument && total <= maxMsg {
+						c.Fail("batch-read-failed-as-a-whole", "BatchReadBlobs with one malformed digest failed with %v [%s]", err, desc)
+					}
+					return
+				}
+				answered := map[string]bool{}
+				for i, r := range resp.Responses {
+					if codes.Code(r.Status.GetCode()) != codes.OK {
+						if len(r.Data) > 0 {
+							c.Fail("batch-read-data-with-error", "entry %d: status %v but data delivered [%s]", i, codes.Code(r.Status.GetCode()), desc)
+							return
+						}
+					} else if r.Digest == nil || int64(len(r.Data)) != r.Digest.SizeBytes || RefHash(remoteexecution.DigestFunction_SHA256, r.Data) != r.Digest.Hash {
+						c.Fail("batch-read-wrong-data", "response %d answers digest %v with status OK and data %s, which is not that object (request with a malformed digest at position %d) [%s]", i, r.Digest, short(r.Data), pos, desc)
+						return
+					}
+					if r.Digest != nil {
+						answered[fmt.Sprintf("%s/%d", r.Digest.Hash, r.Digest.SizeBytes)] = true
+					}
+				}
+				for _, x := range xs {
+					dp := objs[x].D.GetProto()
+					if !answered[fmt.Sprintf("%s/%d", dp.Hash, dp.SizeBytes)] {
+						c.Fail("batch-read-response-count", "the well-formed digest %v of the request got no response (malformed digest at position %d) [%s]", dp, pos, desc)
+						return
+					}
+				}
+				c.Count("probe_batch_read_malformed_reported_per_entry", 1)
+				return
+			}
 			resp, err := cas.BatchReadBlobs(ctx, req)
 			if err != nil {
 				if total <= maxMsg {
